@@ -1189,6 +1189,9 @@ class Interp:
             return self.lift2(args[0], args[1], g, st.cond)
         if name == 'bin':
             return V(UF('bin', args))
+        if name == 'slice' and len(args) == 2:
+            lo, hi = args
+            return V(('slice', self.value_key(lo), self.value_key(hi), lo, hi))
         raise Unsupported('builtin %s' % name)
 
     def call_bound_builtin(self, p, args, e, st):
@@ -1569,7 +1572,7 @@ class _ModuleCtx:
         self.qualname = '<module %s>' % module.name
 
 
-BUILTINS = {'print', 'int', 'bool', 'len', 'range', 'isinstance', 'hasattr', 'abs', 'min', 'max', 'bin',
+BUILTINS = {'print', 'int', 'bool', 'len', 'range', 'isinstance', 'hasattr', 'abs', 'min', 'max', 'bin', 'slice',
             'NotImplementedError', 'super', 'repr', 'str'}
 
 
